@@ -1516,3 +1516,58 @@ func init() {
 			"dangling": remoteClosure(remote), "remote_ops": remote.ops}, nil
 	})
 }
+
+// ------------------------------------------------------------------------------------------------
+// C08: remote object keys composed by the real S3Cache (recording client)
+// ------------------------------------------------------------------------------------------------
+
+type recS3 struct{ calls [][2]string }
+
+func (r *recS3) GetObject(ctx context.Context, bucket, key string) (io.ReadCloser, error) {
+	r.calls = append(r.calls, [2]string{bucket, key})
+	return nil, os.ErrNotExist
+}
+func (r *recS3) PutObject(ctx context.Context, bucket, key string, body io.Reader) error {
+	r.calls = append(r.calls, [2]string{bucket, key})
+	_, _ = io.Copy(io.Discard, body)
+	return nil
+}
+func (r *recS3) DeleteObject(ctx context.Context, bucket, key string) error {
+	r.calls = append(r.calls, [2]string{bucket, key})
+	return nil
+}
+func (r *recS3) ObjectExists(ctx context.Context, bucket, key string) (bool, error) {
+	r.calls = append(r.calls, [2]string{bucket, key})
+	return false, nil
+}
+
+func init() {
+	register("store.s3path", func(req map[string]any) (any, error) {
+		root := b2s(req["root"])
+		config.Global = config.WorkspaceConfig{Root: "/nonexistent", WorkspaceRoot: root, LogLevel: "error", LogOutputPath: "stderr"}
+		ctx := console.WithLogger(context.Background(), console.InitLogger())
+		client := &recS3{}
+		c, err := backends.NewS3CacheWithClient(ctx, config.S3CacheConfig{Bucket: b2s(req["bucket"]), Prefix: b2s(req["prefix"])}, client)
+		if err != nil {
+			return map[string]any{"ok": false}, nil
+		}
+		calls, _ := req["calls"].([]any)
+		for i, cl := range calls {
+			p, _ := cl.([]any)
+			path, key := b2s(p[0]), b2s(p[1])
+			switch i % 3 {
+			case 0:
+				_, _ = c.Exists(ctx, path, key)
+			case 1:
+				_ = c.Set(ctx, path, key, bytes.NewReader(nil))
+			default:
+				_, _ = c.Get(ctx, path, key)
+			}
+		}
+		out := []any{}
+		for _, cl := range client.calls {
+			out = append(out, []any{s2b(cl[0]), s2b(cl[1])})
+		}
+		return map[string]any{"ok": true, "objects": out, "ws": s2b(strings.Trim(config.GetWorkspaceCachePrefix(root), "/"))}, nil
+	})
+}
